@@ -772,6 +772,9 @@ impl<P: PageTableFrameMapping> PageTableWalker<P> {
                 return Err(PageTableCreateError::FrameAllocationFailed);
             }
         } else {
+            if entry.flags().contains(PageTableFlags::HUGE_PAGE) {
+                return Err(PageTableCreateError::MappedToHugePage);
+            }
             if !insert_flags.is_empty() && !entry.flags().contains(insert_flags) {
                 entry.set_flags(entry.flags() | insert_flags);
             }
